@@ -5,7 +5,7 @@ SPEC = dict(
     model="Model.C29_Wire Model.C29",
     rule="requests sent through a live single-node Store with every API that writes a command (Execute, Query at level strong, Request, Load, Noop) plus load chunks "
          "through command.MarshalLoadChunkRequest; hand-picked: 511/512/513 statements and 4095/4096/4097 bytes of compressible and incompressible SQL at the default "
-         "thresholds, every parameter kind, forced compression, zero thresholds; generated: 0-10 statements with SQL lengths just below/at/above the size threshold, "
+         "thresholds, every parameter kind, forced compression, zero thresholds, requests whose gzip output is exactly one byte shorter than / as long as / one byte longer than their encoding; generated: 0-10 statements with SQL lengths just below/at/above the size threshold, "
          "statement counts just below/at/above the batch threshold (thresholds 3-8 statements / 24-200 bytes so that both are crossed often), parameters of all five "
          "kinds plus unset (int64 extremes, NaN/-0/inf doubles, empty and non-UTF-8 blobs, multi-byte names), all flags, int64 extremes in timeouts.  A case is "
          "non-trivial when a statement count or an SQL length is within 2 of its threshold or the request carries every parameter kind; distinct by type, thresholds and request bytes",
@@ -26,5 +26,5 @@ SPEC = dict(
                "Command/QueryRequest/ExecuteRequest/ExecuteQueryRequest/LoadRequest/LoadChunkRequest/Noop/Request/Statement/Parameter; gzip a hypothesis.",
     technique="Coq proof of codec inversion (generic field parser + per-message folds) and of the marshal pipeline + byte-for-byte differential run against the real store's log entries",
     design_ref="6/C29",
-    timeout_quick=600, timeout_thorough=7200, shard=40,
+    timeout_quick=600, timeout_thorough=7200, shard=30, coq_jobs=8,
 )
